@@ -43,6 +43,7 @@ SC3 = ["CO_VERIF_SDO_BUF_SEG=3"]
 REAL1K = ["SDO_DS2=1000"]
 TWO3 = ["CO_SSDO_N=2", "CO_VERIF_SDO_BUF_SEG=3"]
 CLOSE = {"coarse": 1, "small": 1, "fewinit": 1}
+RESIDUE = {"coarse": 2, "small": 1, "fewinit": 1}
 def sdo_jobs(h, quick):
     if quick:
         return [J(h, 0, defs=SC3, depth=60, deadline=150, opts=CLOSE),                      # closed state space, scaled buffer
@@ -50,19 +51,21 @@ def sdo_jobs(h, quick):
                 J(h, 0, defs=SC3, depth=2, deadline=100),                                   # fine state identity, full alphabet
                 J(h, 0, defs=SC3, depth=3, deadline=100, opts={"small": 1, "fewinit": 1}),  # fine state identity, reduced alphabet
                 J(h, 0, defs=REAL1K, depth=3, deadline=100, opts={"small": 1, "fewinit": 1, "coarse": 1}),   # real 127-segment buffer
-                J(h, 0, defs=TWO3, depth=4, deadline=100, opts=CLOSE)]                      # two servers interleaved
+                J(h, 0, defs=TWO3, depth=4, deadline=100, opts=CLOSE),                      # two servers interleaved
+                J(h, 0, defs=SC3, depth=5, deadline=100, opts=RESIDUE)]                     # leftovers of finished transfers kept in the state identity
     return [J(h, 0, defs=SC3, depth=60, deadline=1500, opts={"coarse": 1}, max_states=20000000),
             J(h, 1, defs=SC3, depth=60, deadline=1500, opts=CLOSE),
             J(h, 0, defs=SC3, depth=3, deadline=1200, max_states=20000000),
             J(h, 0, defs=SC3, depth=5, deadline=1200, opts={"small": 1, "fewinit": 1}, max_states=20000000),
             J(h, 0, defs=REAL1K, depth=5, deadline=1200, opts={"small": 1, "fewinit": 1, "coarse": 1}, max_states=20000000),
             J(h, 0, defs=REAL1K, depth=3, deadline=1200, opts={"small": 1}, max_states=20000000),
-            J(h, 0, defs=TWO3, depth=6, deadline=1200, opts=CLOSE, max_states=20000000)]
+            J(h, 0, defs=TWO3, depth=6, deadline=1200, opts=CLOSE, max_states=20000000),
+            J(h, 0, defs=SC3, depth=8, deadline=900, opts=RESIDUE, max_states=20000000)]
 
 PROPS["C04"] = {
     "level": "model_checking",
     "technique": "explicit-state BFS over the full SDO command alphabet against the real server with an allowed-set reference server",
-    "text": 'BFS over the real SDO server(s) with an alphabet of ~630 request frames (all 256 command bytes; initiate requests of every kind to every object class incl. missing index/sub-index, RO/WO, node-id relative, domains smaller/larger than the buffer, strings, range- and user-abort types, with size fields =,<,>,0; acknowledges for all ackseq x blksize classes), in lockstep with a reference server that yields the set of admissible responses per protocol state. Per step: number of response frames, multiplexer, abort code, toggle/size/last flags, data, and the complete dictionary image are compared. The scaled-buffer build (3 segments) is explored to a fixpoint under a coarse state identity; fine state identity to depth 2-3; the real 127-segment buffer and a two-server build to a depth bound.',
+    "text": 'BFS over the real SDO server(s) with an alphabet of ~630 request frames (all 256 command bytes; initiate requests of every kind to every object class incl. missing index/sub-index, RO/WO, node-id relative, domains smaller/larger than the buffer, strings, range- and user-abort types, with size fields =,<,>,0; acknowledges for all ackseq x blksize classes), in lockstep with a reference server that yields the set of admissible responses per protocol state. Per step: number of response frames, multiplexer, abort code, toggle/size/last flags, data, and the complete dictionary image are compared. The scaled-buffer build (3 segments) is explored to a fixpoint under a coarse state identity; fine state identity to depth 2-3; a "residue" state identity that keeps the cursors, counters and flags finished transfers leave behind (only buffer bytes and multiplexer dropped) to depth 5 (quick) / 8 or the deadline (thorough); the real 127-segment buffer and a two-server build to a depth bound.',
     "note": 'coarse state identity zeroes fields the next initiate re-initialises (assumed dead; cross-checked by the fine explorations to their depth); application data is rewritten to its initial value whenever all servers are idle; requests in block-download phases are judged as segments (CiA 301 cannot tell them apart); out-of-protocol non-initiate requests only need exactly one answer',
     "jobs": {"quick": sdo_jobs("c04", True), "thorough": sdo_jobs("c04", False)},
 }
@@ -242,6 +245,17 @@ PROPS["C18"] = {
     "jobs": {"quick": c18_jobs(True), "thorough": c18_jobs(False)},
 }
 
+PROPS["C19"] = {
+    "level": "model_checking",
+    "technique": "deviation-bounded exhaustive enumeration of SDO server behaviours against the real SDO client (sequences of back-to-back transfers, one or two deviations placed at every response step), reference client/server with callback, buffer-guard and timer-pool accounting",
+    "text": "The harness plays the SDO server for client 0: a conforming reference server (expedited for <= 4 bytes, segmented otherwise, junk in unused bytes) plus 16 deviation kinds that can be placed at every response step k of a transfer: abort with matching / other-index / other-sub-index multiplexer, silence, late answer while idle, late answer into the next transfer, wrong toggle, four foreign response types per phase, announced size +-1, expedited answer to a segmented request and vice versa, more data than announced (missing c bit + extra segments, over-long last segment), early c bit, request while busy (both API calls), five kinds of response while idle. A case is a sequence of up to 2 (quick) / 3 (thorough) transfers - direction x every size 1..300, 889, 1000, 1999, 2000 x timing profile (timeout, server delay) in {(2,0),(2,1),(5,0),(5,4)} ticks - separated by idle gaps {0, timeout-1, timeout, timeout+1}, with <= 1 (quick) / <= 2 (thorough) deviations per sequence; plus a 70 s timeout (silent server and a server answering after 65.6 s), a long-timeout transfer behind a short one, and a disabled client (1280h:1/:2 bit 31). User buffers are exact-size heap blocks GUARD|size|GUARD checked after every frame. Oracle per step: request frames on 605h equal the reference client's (initiate, announced size, toggle, n, c, data in order); exactly one completion callback per accepted request with code 0 / the server's abort code / 0504 0000h plus exactly one abort frame after [timeout, timeout+1] ticks without a response; upload buffer equals the server's bytes (re-checked at the end of the sequence); busy => CO_ERR_SDO_BUSY without effect; disabled => refused without frame, callback or timer; responses while idle have no effect; timer action and event occupancy return to the pre-request value; nothing happens in an idle tail after the last transfer.",
+    "note": "where CiA 301 does not fix the client's reaction an allowed set is used: a malformed response may be ignored (then the timeout path is checked) or end the transfer once with a non-zero code and at most one abort frame - never code 0; an object smaller than the buffer or a segmented answer to a <= 4-byte upload may complete with the server's bytes as a prefix or be refused; an abort with a foreign multiplexer may be ignored or taken. The timeout is per response. NMT resets during a transfer are C20's; only client 0 exists (CO_CSDO_N=1). Second/third transfers after a deviation use 8 probe transfers, not every size",
+    "jobs": {
+        "quick": [J("c19", c, deadline=150) for c in range(26)],
+        "thorough": [J("c19", c, deadline=880) for c in range(26)],
+    },
+}
+
 PROPS["C20"] = {
     "level": "model_checking",
     "technique": "metamorphic differential exploration: BFS over a mixed history alphabet; in every reached state the node after an NMT reset is compared, under every probe sequence, with a freshly initialised node holding the same dictionary values (the implementation is its own reference)",
@@ -264,7 +278,10 @@ def c01_jobs(quick):
              J("c04", 0, defs=SC3, depth=3 if quick else 4, deadline=dl, opts=S({"small": 1, "fewinit": 1, "dlc": 1})),
              J("c04", 0, defs=REAL1K, depth=3 if quick else 5, deadline=dl, opts=S({"small": 1, "fewinit": 1, "coarse": 1, "dlc": 1})),
              J("c04", 0, defs=TWO3, depth=4 if quick else 6, deadline=dl, opts=S({"coarse": 1, "small": 1, "fewinit": 1, "dlc": 1})),
-             J("c04", 1, defs=["CO_SSDO_N=2", "SDO_DS2=1000"], depth=3 if quick else 4, deadline=dl, opts=S({"small": 1, "fewinit": 1, "coarse": 1}))]
+             J("c04", 1, defs=["CO_SSDO_N=2", "SDO_DS2=1000"], depth=3 if quick else 4, deadline=dl, opts=S({"small": 1, "fewinit": 1, "coarse": 1})),
+             J("c04", 0, defs=SC3, depth=5 if quick else 8, deadline=dl, opts=S(RESIDUE), max_states=20000000),
+             # conforming dialogues on the real buffer, from the initial state and after completed/abandoned earlier transfers
+             J("c02", 0, defs=REAL4K, deadline=dl, opts=SAFE), J("c02", 3, defs=REAL4K, deadline=dl, opts=SAFE), J("c03", 17, defs=REAL4K, deadline=dl, opts=SAFE)]
     # timer cluster with interrupt injection
     jobs += [C08(1, depth=40, opts=SAFE), C08(7, depth=40, opts=SAFE), C08(2, depth=5 if quick else 8, deadline=dl, opts=SAFE)]
     # heartbeat, PDO/SYNC, reconfiguration, EMCY, LSS, parameters, reset cluster
@@ -279,7 +296,7 @@ def c01_jobs(quick):
 PROPS["C01"] = {
     "level": "model_checking",
     "technique": "explicit-state exploration of the sanitizer-instrumented implementation per service cluster (closed state space for the scaled SDO server, depth bounds elsewhere) plus an exhaustive sweep over all subsets of the optional dictionary groups; only the safety monitor judges",
-    "text": "Every exploration of every other property runs on an ASan+UBSan build with the safety monitor (sanitizer report, fatal-error callback, per-step CPU watchdog for unbounded loops, <= CO_SDO_BUF_SEG+2 frames per step, balanced timer lock) - C01 re-runs one representative of each cluster in safety-only mode with wider alphabets: (1) dictionary subsets: all 27648 combinations of {1003h, 1005h with/without 1006h or producing, 1014h, 1016h ok / count larger than the entries, 1017h, 1200h fixed / writable, 1280h, RPDO0 absent / communication record only / asynchronous / synchronous, RPDO1 synchronous, TPDO0 likewise, TPDO1} at three timer frequencies; for each, CONodeInit + start and every sequence of <= 2 (thorough: 3) of 56 events: NMT commands incl. DLC 0, ticks, SDO requests to every optional object incl. DLC 0 and 3, RPDO/SYNC/heartbeat/LSS/foreign frames with short DLC, TPDO triggers incl. out-of-range numbers, EMCY calls incl. an index beyond the table, SDO client request/response, failing CAN send, CAN read error, open segmented/block transfers; (2) SDO server: the closed state space of the 3-segment build and depth-bounded runs of the real 127-segment buffer and of CO_SSDO_N=2, each with truncated request frames added; (3) timer manager with the tick interrupt injected at every preemption point; (4) heartbeat consumer tables, heartbeat producer interference alphabet, all RPDO tables with a synchronous RPDO above an absent/asynchronous channel, all RPDO/TPDO mapping compositions incl. dummies, PDO reconfiguration histories, EMCY, LSS (full alphabet), parameter store/restore with NVM faults, and the mixed reset alphabet of C20.",
+    "text": "Every exploration of every other property runs on an ASan+UBSan build with the safety monitor (sanitizer report, fatal-error callback, per-step CPU watchdog for unbounded loops, <= CO_SDO_BUF_SEG+2 frames per step, balanced timer lock) - C01 re-runs one representative of each cluster in safety-only mode with wider alphabets: (1) dictionary subsets: all 27648 combinations of {1003h, 1005h with/without 1006h or producing, 1014h, 1016h ok / count larger than the entries, 1017h, 1200h fixed / writable, 1280h, RPDO0 absent / communication record only / asynchronous / synchronous, RPDO1 synchronous, TPDO0 likewise, TPDO1} at three timer frequencies; for each, CONodeInit + start and every sequence of <= 2 (thorough: 3) of 56 events: NMT commands incl. DLC 0, ticks, SDO requests to every optional object incl. DLC 0 and 3, RPDO/SYNC/heartbeat/LSS/foreign frames with short DLC, TPDO triggers incl. out-of-range numbers, EMCY calls incl. an index beyond the table, SDO client request/response, failing CAN send, CAN read error, open segmented/block transfers; (2) SDO server: the closed state space of the 3-segment build and depth-bounded runs of the real 127-segment buffer and of CO_SSDO_N=2, each with truncated request frames added, a run whose state identity keeps the cursors and counters finished transfers leave behind, and the conforming download/upload dialogues of C02/C03 on the real buffer from the initial state and after completed or abandoned earlier transfers; (3) timer manager with the tick interrupt injected at every preemption point; (4) heartbeat consumer tables, heartbeat producer interference alphabet, all RPDO tables with a synchronous RPDO above an absent/asynchronous channel, all RPDO/TPDO mapping compositions incl. dummies, PDO reconfiguration histories, EMCY, LSS (full alphabet), parameter store/restore with NVM faults, and the mixed reset alphabet of C20.",
     "note": "payload values outside the representatives are not enumerated (control fields and sizes are); histories longer than the bounds where no fixpoint is reached; API misuse (NULL arguments, mode values outside the enum) is outside the statement; the watchdog treats 4 s of CPU time without progress as an unbounded loop",
     "jobs": {"quick": c01_jobs(True), "thorough": c01_jobs(False)},
 }
